@@ -421,9 +421,17 @@ impl Story {
             if let Ok(choice_point) = cco.clone().into_any().downcast::<ChoicePoint>() {
                 let choice = self.process_choice(&choice_point)?;
                 if let Some(choice) = choice {
-                    self.get_state_mut()
-                        .get_generated_choices_mut()
-                        .push(choice);
+                    let generated_choices = self.get_state_mut().get_generated_choices_mut();
+
+                    // The position the host will see it at: invisible default
+                    // choices are never offered.
+                    let visible_before = generated_choices
+                        .iter()
+                        .filter(|c| !c.is_invisible_default)
+                        .count();
+                    choice.index.replace(visible_before);
+
+                    generated_choices.push(choice);
                 }
 
                 current_content_obj = None;
